@@ -180,7 +180,7 @@ def normalize(spec):
     for mi, m in enumerate(spec["machines"]):
         M = {"name": m["name"], "index": mi, "parent": -1, "parent_state": -1, "regions": [], "states": [],
              "rows": [], "irows": [], "history": 0, "shallow_events": [],
-             "switch": int(m.get("switch", 0)), "activate_deferred": bool(m.get("activate_deferred", False)), "queue_first": bool(m.get("queue_first", False)),
+             "switch": int(m.get("switch", 0)), "activate_deferred": bool(m.get("activate_deferred", False)), "queue_first": bool(m.get("queue_first", False)), "no_queue": bool(m.get("no_queue", False)),
              "queue": True, "raw": m}
         h = m.get("history", "none")
         if h == "always":
